@@ -67,7 +67,32 @@ def _remove_dots(path):
 
 
 def resolve(base, ref):
-    """RFC 3986 5.2.2 (strict), 5.2.3 merge, 5.3 recomposition. The fragment of `ref` is kept."""
+    """RFC 3986 5.2.2 (strict), 5.2.3 merge, 5.3 recomposition. The fragment of `ref` is kept.
+
+    One thing the pseudo code of 5.3 leaves open: removing dot segments can leave a path that begins with "//" where
+    there is no authority ("foo:/a/..//x", or "..//x" against "foo:/a/"). Written out as it is ("foo://x") that is
+    another URI -- "x" would be read as the authority, and RFC 3986 3.3 rules it out: "If a URI does not contain an
+    authority component, then the path cannot begin with two slash characters". The spelling that keeps the
+    components is the one with a "." segment in front ("foo:/.//x"; the erratum to 5.2.4 and the WHATWG URL
+    serializer do the same), and that is what this returns."""
+    ts, ta, tp, tq, rf = resolve_parts(base, ref)
+    out = ""
+    if ts is not None:
+        out += ts + ":"
+    if ta is not None:
+        out += "//" + ta
+    elif tp.startswith("//"):
+        out += "/."
+    out += tp
+    if tq is not None:
+        out += "?" + tq
+    if rf is not None:
+        out += "#" + rf
+    return out
+
+
+def resolve_parts(base, ref):
+    """-> (scheme, authority, path, query, fragment) of the target URI, RFC 3986 5.2.2"""
     bs, ba, bp, bq, _bf = _split(base)
     rs, ra, rp, rq, rf = _split(ref)
     if rs is not None:
@@ -91,17 +116,7 @@ def resolve(base, ref):
                 tq = rq
             ta = ba
         ts = bs
-    out = ""
-    if ts is not None:
-        out += ts + ":"
-    if ta is not None:
-        out += "//" + ta
-    out += tp
-    if tq is not None:
-        out += "?" + tq
-    if rf is not None:
-        out += "#" + rf
-    return out
+    return ts, ta, tp, tq, rf
 
 
 def origin(uri):
@@ -227,6 +242,17 @@ def resolution_features(r):
     return f
 
 
+def path_as_authority_refs(r):
+    """The targets / anchors of `r` whose resolved form has no authority and a path beginning with "//" (see resolve())."""
+    refs = [l.href for l in r.links] + [v for l in r.links for k, v in l.params if k == "anchor" and v is not None]
+    out = []
+    for x in refs:
+        _ts, ta, tp, _tq, _tf = resolve_parts(r.base, x)
+        if ta is None and tp.startswith("//"):
+            out.append(x)
+    return out
+
+
 def features(r):
     """Which of the things a registration may legitimately be *asked* to store, but that a careless directory trips
     over, does the model registration `r` contain? (Used to name a violation after its mechanism and to count what
@@ -252,6 +278,11 @@ def features(r):
     if any(has_uri_delimiter(l.href) for l in r.links):
         f.add("delimiter-in-link-target")
     f |= resolution_features(r)
+    if path_as_authority_refs(r):
+        f.add("path-as-authority")
+    # RFC 8288 3 / RFC 5988 5.4: parameter names are case-insensitive
+    if any(k.lower() == "anchor" and v is None for l in r.links for k, v in l.params):
+        f.add("valueless-anchor")
     for l in r.links:
         for k, v in l.params:
             if v is None:
@@ -587,8 +618,11 @@ class Model:
         vals = []
         for k, v in rest:
             if k == name and v is not None:
-                vals.extend(v.split(" ") if name in ("rt", "if") else [v])
-        return _match(pat, [v for v in vals if v != ""])
+                if name in ("rt", "if"):
+                    vals.extend(x for x in v.split(" ") if x != "")  # (an empty list of types has no member to match)
+                else:
+                    vals.append(v)  # an empty value is a value: `name=*` (any prefix) matches it
+        return _match(pat, vals)
 
     def filtered(self, name, pat):
         """-> (endpoint entries, resource entries) matching one `name=pat` criterion.
@@ -662,6 +696,11 @@ def selftest():
         ("coap+x://h/p/", "r//s", "coap+x://h/p/r//s"),
     ]:
         assert resolve(base, ref) == want, (base, ref, resolve(base, ref), want)
+    for base, ref, want in [
+        ("coap://h/p/", "foo:/a/..//x", "foo:/.//x"), ("coap://h/p/", "foo:/.//[bad", "foo:/.//[bad"), ("foo:/a/", "..//x", "foo:/.//x"), ("foo:/a/b/", "../..//x?q#f", "foo:/.//x?q#f"),
+        ("foo:/.//x", "/", "foo:/"), ("foo:/.//x", "y", "foo:/.//y"), ("coap://h/p/q", "../..//t/y", "coap://h//t/y"), ("foo:/a/", "//x/y", "foo://x/y"), ("foo:a/b", "../..//x", "foo:/.//x"),
+    ]:
+        assert resolve(base, ref) == want, (base, ref, resolve(base, ref), want)
     for t, bad in [("coap://h/a>b", True), ("a<b", True), ("a b", True), ('a"b', True), ("a\tb", True), ("a\x7fb", True), ("coap://h/a,b;c='d'(e)*!$&+=:@%41", False), ("", False), (None, False), ("a\\b^`{|}", False), ("\u00fc", False)]:
         assert has_uri_delimiter(t) == bad, t
     m = Model(15)
@@ -671,6 +710,9 @@ def selftest():
     assert sorted(r.res_entries()) == [("coap://10.0.0.2:40000/a", "coap://10.0.0.2:40000/", (("rt", "x y"),)), ("coap://10.0.0.2:40000/r", "coap://10.0.0.2:40000/z", ())]
     assert m.filtered("rt", "y")[1] == [("coap://10.0.0.2:40000/a", "coap://10.0.0.2:40000/", (("rt", "x y"),))]
     assert len(m.filtered("ep", "n")[1]) == 2 and m.filtered("ep", "m") == ([], [])
+    m2 = Model(15)
+    m2.register(("v", None), "/reg/9/", parse_query(["ep=v"]), reflink.parse('</e>;rel="";rt="";obs,</f>;rel="x"'), ("10.0.0.2", 40000), 0.0)
+    assert len(m2.filtered("rel", "*")[1]) == 2 and len(m2.filtered("rel", "x")[1]) == 1 and m2.filtered("rt", "*")[1] == [] and m2.filtered("obs", "*")[1] == []
     m.update(r, parse_query(["foo=2", "bar"]), ("10.0.0.3", 5683), 10.0)
     assert r.base == "coap://10.0.0.3" and r.lt == 60 and r.extras == [("foo", ["2"]), ("bar", [None])]
     try:
